@@ -319,7 +319,9 @@ class History:
                 ok = True
                 for hi, lo in zip(self.bounds[:-1], self.bounds[1:]):
                     if lo < c[1]:
-                        if len(self.live_in(hi, lo)) + 1 + sum(1 for s in samples if s[1] > lo) > self.max_live: ok = False
+                        ev = self.events.get(lo, {}).get('kind')
+                        grow = 1 if ev in ('split', 'branch', 'admix', 'merge') else 0     # the child exists before parents are removed
+                        if len(self.live_in(hi, lo)) + grow + 1 + sum(1 for s in samples if s[1] > lo) > self.max_live: ok = False
                 if ok and not any(s[0] == c[0] and s[1] == c[1] for s in samples):
                     samples.append((c[0], c[1])); na -= 1
             if rng.random() < 0.25 and any(t > 0 for _, t in samples):
@@ -359,7 +361,14 @@ class History:
         Nr = self.Ne if Ne is None else Ne
         t_stop = min(t for _, t in samples)
         anc = sorted([(n, t) for n, t in samples if t > t_stop], key=lambda s: -s[1])
-        bounds = sorted(set(self.bounds) | set(t for _, t in anc) | {t_stop}, reverse=True)
+        # integration intervals end where something in the history changes (an epoch, a migration, a pulse, a deme, a sample)
+        used = set()
+        for d in self.demes:
+            for e in d['epochs']: used.add(e['start_time']); used.add(e['end_time'])
+        for m in self.migrations: used.add(m['start_time']); used.add(m['end_time'])
+        for p in self.pulses: used.add(p['time'])
+        used.discard(INF)
+        bounds = sorted(used | set(t for _, t in anc) | {t_stop}, reverse=True)
         bounds = [b for b in bounds if b >= t_stop]
         ops = [dict(op='phi1d', nu=self.demes[0]['epochs'][0]['start_size'] / Nr)]
         axes = ['d0']
